@@ -78,9 +78,9 @@ Proof.
 Qed.
 
 Theorem periodic_quadform n d bs : (1 <= d)%nat -> length bs = n ->
-  quadR (pen_periodic Rrops n d) bs = sumsqR (cdiffnR d bs).
+  quadR (pen_cyclic_spec Rrops n d) bs = sumsqR (cdiffnR d bs).
 Proof.
-  intros Hd H. unfold pen_periodic.
+  intros Hd H. unfold pen_cyclic_spec.
   assert (G : quadR (gramR (map (cdiffnR d) (identR n))) bs = sumsqR (cdiffnR d bs)).
   { apply (quad_gram_linop (cdiffnR d) (fun p => p)).
     + intros; apply cdiffn_vadd; assumption.
@@ -141,3 +141,68 @@ Proof. intros Hd. destruct d; [lia|]. clear Hd. induction d.
   - change (cdiffnR (S (S d)) (repeat c n)) with (cdiffR (cdiffnR (S d) (repeat c n))).
     rewrite IHd. apply cdiff_zeros. Qed.
 Lemma sumsq_zeros p : sumsqR (zerosR p) = 0. Proof. apply dot_zeros_r. Qed.
+
+(* the code's periodic penalty is still a Gram matrix, hence symmetric PSD *)
+Lemma periodic_is_gram n d M : pen_periodic Rrops n d = Some M ->
+  M = [[0]] \/ exists rows, M = gramR rows.
+Proof. unfold pen_periodic. destruct n as [|[|n]].
+  - destruct (Nat.ltb 0 d); [discriminate|]. intros E; inversion E. right; eexists; reflexivity.
+  - intros E; inversion E. left; reflexivity.
+  - destruct (Nat.ltb (S (S n)) d); [discriminate|]. intros E; inversion E. right; eexists; reflexivity.
+Qed.
+Lemma add_at_length (r : list R) pos v : (pos + length v <= length r)%nat -> length (add_at Rrops r pos v) = length r.
+Proof. intros H. unfold add_at. rewrite !app_length, vadd_length, !firstn_length, !skipn_length. lia. Qed.
+Lemma slice_length {A} (l : list A) a b : length (slice l a b) = Nat.min b (length l - a).
+Proof. unfold slice. rewrite firstn_length, skipn_length. reflexivity. Qed.
+Lemma Forall_firstn {A} (P : A -> Prop) k l : Forall P l -> Forall P (firstn k l).
+Proof. intros H. apply Forall_forall. intros x Hx. rewrite Forall_forall in H. apply H.
+  rewrite <- (firstn_skipn k l). apply in_or_app. left; assumption. Qed.
+Lemma Forall_skipn {A} (P : A -> Prop) k l : Forall P l -> Forall P (skipn k l).
+Proof. intros H. apply Forall_forall. intros x Hx. rewrite Forall_forall in H. apply H.
+  rewrite <- (firstn_skipn k l). apply in_or_app. right; assumption. Qed.
+Lemma periodic_D_shape n d : (d <= n)%nat ->
+  Forall (fun r => length r = (n - d)%nat) (periodic_D Rrops n d) /\ length (periodic_D Rrops n d) = n.
+Proof.
+  intros Hdn. unfold periodic_D. set (N := (n + 2 * d)%nat).
+  destruct (ident_lengths N) as [HF HL].
+  set (D0 := map (diffnR d) (identR N)).
+  assert (H0 : Forall (fun r => length r = (n + d)%nat) D0 /\ length D0 = N).
+  { split; [|unfold D0; rewrite map_length; exact HL]. unfold D0. apply Forall_map.
+    eapply Forall_impl; [|exact HF]. intros r Hr. simpl in Hr. rewrite diffn_length, Hr. unfold N. lia. }
+  destruct H0 as [H0 L0].
+  set (D1 := map (fun r => add_at Rrops r (n - d) (vscaleR (sgn Rrops d) (firstn d r))) D0).
+  assert (H1 : Forall (fun r => length r = (n + d)%nat) D1 /\ length D1 = N).
+  { split; [|unfold D1; rewrite map_length; exact L0]. unfold D1. apply Forall_map.
+    eapply Forall_impl; [|exact H0]. intros r Hr. simpl in Hr. rewrite add_at_length; [exact Hr|].
+    rewrite vscale_length, firstn_length. lia. }
+  destruct H1 as [H1 L1].
+  set (D2 := firstn (N - N / 2) D1 ++ rev (map (@rev R) (firstn (N / 2) D1))).
+  assert (Hdiv : (N / 2 <= N)%nat) by (apply Nat.div_le_upper_bound; lia).
+  assert (H2 : Forall (fun r => length r = (n + d)%nat) D2 /\ length D2 = N).
+  { split.
+    - unfold D2. apply Forall_app. split; [apply Forall_firstn; exact H1|].
+      apply Forall_rev. apply Forall_map. apply Forall_firstn.
+      eapply Forall_impl; [|exact H1]. intros r Hr. simpl in *. rewrite rev_length. exact Hr.
+    - unfold D2. rewrite app_length, rev_length, map_length, !firstn_length, L1. lia. }
+  destruct H2 as [H2 L2].
+  split.
+  - apply Forall_map. unfold slice at 2. apply Forall_firstn. apply Forall_skipn.
+    eapply Forall_impl; [|exact H2]. intros r Hr. simpl in *. rewrite slice_length, Hr. lia.
+  - rewrite map_length, slice_length, L2. unfold N. lia.
+Qed.
+
+Theorem periodic_code_sym_psd n d M : pen_periodic Rrops n d = Some M -> bisym M n /\ psd M n.
+Proof.
+  unfold pen_periodic. destruct n as [|[|n]].
+  - destruct (Nat.ltb 0 d) eqn:E; [discriminate|]. intros X; inversion X; subst. apply Nat.ltb_ge in E.
+    destruct (periodic_D_shape 0 d E) as [HF HL]. split.
+    + intros u v Hu Hv. apply (gram_bisym (0 - d)); rewrite ?HL; assumption.
+    + intros u Hu. unfold quad. rewrite (bil_gram (0 - d)); rewrite ?HL; try assumption. apply sumsq_nonneg.
+  - intros X; inversion X; subst. split.
+    + intros u v Hu Hv. destruct u as [|a [|? ?]]; try discriminate. destruct v as [|b [|? ?]]; try discriminate. cbn. lra.
+    + intros u Hu. destruct u as [|a [|? ?]]; try discriminate. cbn. lra.
+  - destruct (Nat.ltb (S (S n)) d) eqn:E; [discriminate|]. intros X; inversion X; subst. apply Nat.ltb_ge in E.
+    destruct (periodic_D_shape (S (S n)) d E) as [HF HL]. split.
+    + intros u v Hu Hv. rewrite <- HL in Hu, Hv. revert u v Hu Hv. apply (gram_bisym (S (S n) - d)). exact HF.
+    + intros u Hu. unfold quad. rewrite (bil_gram (S (S n) - d)); rewrite ?HL; try assumption. apply sumsq_nonneg.
+Qed.
